@@ -424,6 +424,9 @@ fn check_completed_step(
     prev_timing: (u32, u32, u32),
 ) -> Result<(u32, u32, u32), Violation> {
     let who = format!("router {}", r.id);
+    if let Some(what) = sh.source.inner.lock().unwrap().state_inc_broken.clone() {
+        return Err(Violation::new("state-inc", "", what));
+    }
     let t = target.0.lock().unwrap();
     // exactly one update applied by a completed step
     if t.applied.len() != w.applied_before + 1 {
@@ -526,6 +529,9 @@ fn check_completed_step(
             "",
             format!("{}: Eq and Hash of the payload types disagree: {}", who, what),
         ));
+    }
+    if let Some(what) = &t.lib_vec_mismatch {
+        return Err(Violation::new("vec-update", "", format!("{}: {}", who, what)));
     }
     if t.shadow_as_dataset() != t.data {
         sh.bump("probe_hashset_target_differs_from_value_model");
